@@ -29,6 +29,11 @@ def generate(tier, seed):
     n = 300 if tier == "quick" else 20000
     for k in range(n):
         cases.append({"kind": "built", "seed": "%d:b:%d" % (seed, k), "cost": 40})
+    # fine translation sweeps of a small disulfide-bonded fragment whose S-S bond lies along a
+    # lattice axis: every 0.01 A over 3 A (any cell list must give the same bonds at every offset)
+    n = 6 if tier == "quick" else 60
+    for k in range(n):
+        cases.append({"kind": "sweep", "axis": k % 3, "seed": "%d:sw:%d" % (seed, k), "cost": 400})
     return cases
 
 
@@ -48,10 +53,104 @@ def replay_is_faithful(runT, moved, name, counts):
     return motion.max_pka_difference(rk, runT, lambda k: k) <= 1e-7
 
 
+_SS = None
+
+
+def disulfide_fragments():
+    """Pairs of CYS-centred tripeptides joined by a disulfide, from the repository proteins."""
+    global _SS
+    if _SS is None:
+        from .. import sources
+        _SS = []
+        for name in sources.PROTEINS:
+            rl = sources.residue_list(sources.full_protein(name))
+            cys = [i for i, r in enumerate(rl) if r.key[4] == "CYS" and any(a.aname() == "SG" for a in r.atoms)]
+            for x in range(len(cys)):
+                for y in range(x + 1, len(cys)):
+                    a = [t for t in rl[cys[x]].atoms if t.aname() == "SG"][0]
+                    b = [t for t in rl[cys[y]].atoms if t.aname() == "SG"][0]
+                    d2 = (a.x - b.x) ** 2 + (a.y - b.y) ** 2 + (a.z - b.z) ** 2
+                    if d2 < 2300 ** 2 and 1 <= cys[x] and cys[y] + 1 < len(rl) and abs(cys[x] - cys[y]) > 3:
+                        _SS.append((name, cys[x], cys[y]))
+    return _SS
+
+
+def sweep_case(case, rng, viol, counts, classes):
+    """Rotate a disulfide fragment so that SG-SG lies along a lattice axis, then translate it in
+    0.01 A steps: bonds, bridge flags and group census must be the same at every offset."""
+    import math
+    from .. import fragments, obs, pdbio, sources
+    name, i, j = rng.choice(disulfide_fragments())
+    rl = sources.residue_list(sources.full_protein(name))
+    atoms = []
+    for c, chain in ((i, "A"), (j, "B")):
+        for r in rl[c - 1:c + 2]:
+            for a in r.atoms:
+                a = a.copy()
+                a.chain, a.alt = chain, " "
+                atoms.append(a)
+    sg = [a for a in atoms if a.aname() == "SG"]
+    v = [sg[1].x - sg[0].x, sg[1].y - sg[0].y, sg[1].z - sg[0].z]
+    n = math.sqrt(sum(c * c for c in v))
+    u = [c / n for c in v]
+    # rotation taking u onto the chosen axis (Rodrigues about u x e)
+    e = [0.0, 0.0, 0.0]
+    e[case["axis"]] = rng.choice((1.0, -1.0))
+    k = [u[1] * e[2] - u[2] * e[1], u[2] * e[0] - u[0] * e[2], u[0] * e[1] - u[1] * e[0]]
+    s_ = math.sqrt(sum(c * c for c in k))
+    c_ = sum(u[t] * e[t] for t in range(3))
+    if s_ < 1e-9:
+        R = [[1, 0, 0], [0, 1, 0], [0, 0, 1]]
+    else:
+        k = [c / s_ for c in k]
+        K = [[0, -k[2], k[1]], [k[2], 0, -k[0]], [-k[1], k[0], 0]]
+        K2 = [[sum(K[a][t] * K[t][b] for t in range(3)) for b in range(3)] for a in range(3)]
+        R = [[(1 if a == b else 0) + s_ * K[a][b] + (1 - c_) * K2[a][b] for b in range(3)] for a in range(3)]
+    o = (sg[0].x, sg[0].y, sg[0].z)
+    base = []
+    for a in atoms:
+        p = (a.x - o[0], a.y - o[1], a.z - o[2])
+        q = [R[r][0] * p[0] + R[r][1] * p[1] + R[r][2] * p[2] for r in range(3)]
+        a = a.copy()
+        a.x, a.y, a.z = int(round(q[0])), int(round(q[1])), int(round(q[2]))
+        base.append(a)
+    recs = [a for a in base if a.chain == "A"] + [pdbio.raw("TER")] + [a for a in base if a.chain == "B"]
+    origin = [rng.randrange(-50000, 50000) for _ in range(3)]
+    ref = None
+    nsteps = 300
+    for step in range(nsteps):
+        t = list(origin)
+        t[case["axis"]] += 10 * step
+        moved = pdbio.move(recs, pdbio.IDENTITY, tuple(t))
+        run = obs.run_single(pdbio.dump(moved), with_atoms=True, write_pka=False)
+        counts["pipeline_runs"] = counts.get("pipeline_runs", 0) + 1
+        counts["sweep_poses"] = counts.get("sweep_poses", 0) + 1
+        if run.exc:
+            viol.append({"cls": "pose-changes-outcome", "msg": "sweep offset %d mA: %s" % (10 * step, run.exc)})
+            break
+        conf = run.rec["confs"][run.rec["names"][0]]
+        sig = (sorted(((p[0][0], p[0][1] - t[0], p[0][2] - t[1], p[0][3] - t[2]), (p[1][0], p[1][1] - t[0], p[1][2] - t[1], p[1][3] - t[2]))
+                      for p in map(lambda b: (tuple(b[0]), tuple(b[1])), conf["bonds"])),
+               sorted((g["label"], g["type"], g["bridge"], g["titratable"]) for g in conf["groups"]))
+        if ref is None:
+            ref = sig
+        elif sig != ref:
+            lost = [b for b in ref[0] if b not in sig[0]][:2]
+            flags = [g for g in sig[1] if g not in ref[1]][:2]
+            viol.append({"cls": "pose-changes-bonds", "msg": "disulfide fragment of %s, S-S along axis %d: at offset %.2f A the perceived bonds / groups differ "
+                         "from offset 0 (bonds lost %r, groups now %r)" % (name, case["axis"], step / 100.0, lost, flags)})
+            break
+    classes.append("sweep-axis:%d" % case["axis"])
+    return {"kind": "sweep", "file": name, "cys": (i, j), "axis": case["axis"], "steps": nsteps, "ss_length_A": n / 1000.0}
+
+
 def run_case(case, tier):
     from .. import motion, obs, pdbio, sources, util
     rng = random.Random(case["seed"])
     viol, counts, classes = [], {}, []
+    if case["kind"] == "sweep":
+        desc = sweep_case(case, rng, viol, counts, classes)
+        return util.finish(case, viol, counts, classes, True, desc)
     if case["kind"] == "file":
         recs = sources.full_protein(case["file"])
     elif rng.random() < 0.7:
@@ -156,7 +255,7 @@ def run_case(case, tier):
 
 def verdict(tier, counts, classes, nontrivial, results):
     reasons = []
-    for t in ("tier1", "tier2", "tier3"):
+    for t in ("tier1", "tier2", "tier3", "sweep_poses"):
         if counts.get(t, 0) == 0:
             reasons.append("%s never exercised" % t)
     if counts.get("hydrogens_compared", 0) == 0:
